@@ -199,11 +199,15 @@ def indentStr : Nat → String
   | 0 => ""
   | n + 1 => "  " ++ indentStr n
 
+/-- `float.__repr__` as `json` writes it: the non-finite values have their own spellings (`allow_nan=True`) -/
+def jsonFloat (repr : String) : String :=
+  if repr == "inf" then "Infinity" else if repr == "-inf" then "-Infinity" else if repr == "nan" then "NaN" else repr
+
 mutual
 def JVal.dumps (level : Nat) : JVal → String
   | .str s => jsonStr s
   | .int i => intStr i
-  | .floatTok r => r
+  | .floatTok r => jsonFloat r
   | .bool true => "true"
   | .bool false => "false"
   | .null => "null"
